@@ -16,11 +16,29 @@ _CACHE: dict = {}
 HAND_WRITTEN = ("decoder.py", "encoder.py", "message.py", "utils.py", "ioclient.py", "consts.py", "__init__.py")
 
 
+_TREES: dict = {}
+
+
+def _tree(path):
+    if path not in _TREES:
+        try:
+            _TREES[path] = ast.parse(open(path, encoding="utf-8").read())
+        except Exception:  # noqa: BLE001 - a file that does not parse is not ours to judge
+            _TREES[path] = None
+    return _TREES[path]
+
+
+def preload():
+    """Called once in the parent process before the shards are forked: the children inherit the result."""
+    constants()
+    generated_compare_constants()
+    _TREES.clear()
+
+
 def _literals(path, min_int=None):
     ints, strs = set(), set()
-    try:
-        tree = ast.parse(open(path, encoding="utf-8").read())
-    except Exception:  # noqa: BLE001 - a file that does not parse is not ours to judge
+    tree = _tree(path)
+    if tree is None:
         return ints, strs
     for node in ast.walk(tree):
         if isinstance(node, ast.Constant):
@@ -66,3 +84,49 @@ def constants():
 def ints_in(lo: int, hi: int):
     """Harvested integers v with lo <= v <= hi."""
     return [v for v in constants()["ints"] if lo <= v <= hi]
+
+
+def generated_compare_constants():
+    """{function name in the generated module: set of integer constants it compares something with} - in the generated
+    code only the per-PGN dispatchers compare, and only with the database's match values; anything else is worth trying."""
+    if "gen_cmp" in _CACHE:
+        return _CACHE["gen_cmp"]
+    out = {}
+    tree = _tree(os.path.join(REPO, "nmea2000", "pgns.py"))
+    for node in (tree.body if tree else []):
+        if not isinstance(node, ast.FunctionDef):
+            continue
+        cs = set()
+        def take(c):
+            if isinstance(c, ast.Constant) and isinstance(c.value, int) and not isinstance(c.value, bool):
+                cs.add(c.value)
+            elif isinstance(c, (ast.Tuple, ast.List, ast.Set)):
+                for e in c.elts:
+                    take(e)
+        for sub in ast.walk(node):
+            if isinstance(sub, ast.Compare):             # the operands themselves, not the shifts and masks inside them
+                for c in [sub.left] + sub.comparators:
+                    take(c)
+            elif isinstance(sub, ast.MatchValue):
+                take(sub.value)
+        if cs:
+            out[node.name] = cs
+    _CACHE["gen_cmp"] = out
+    return out
+
+
+def unexplained_constants(dbx):
+    """-> list of (pgn, definition id or None, constant): constants compared inside generated functions of that PGN that
+    the database does not explain (not a match value of any definition of the PGN)."""
+    import re
+    res = []
+    for name, cs in generated_compare_constants().items():
+        m = re.match(r"(?:decode|encode)_pgn_(\d+)(?:_(\w+))?$", name)
+        if not m:
+            continue
+        pgn = int(m.group(1))
+        ds = dbx.by_pgn.get(pgn, [])
+        explained = {f.match for d in ds for f in d.match_fields}
+        for c in sorted(cs - explained):
+            res.append((pgn, m.group(2), c))
+    return res
